@@ -78,6 +78,7 @@ AllItems == {
   TDer("tAB_symdup", "ABs", << <<"A", 1>>, <<"B", 1>> >>, "b"),
   UScaled("ka", "A", "ka", <<10, 1>>, "a"),
   UScaled("xa5", "A", "xa5", <<5, 1>>, "a"),                 \* same scale as ha (= 1/2 ka): equal, yet another unit
+  UScaled("ppa1", "MpA", "ppa1", <<1, 1>>, "ppa"),           \* exactly one ppa, under another symbol
   UScaled("ppa10", "MpA", "ppa10", <<10, 1>>, "ppka"),       \* 10 p/ka = 1 p/a: worth what ppa is worth, in a type without reference unit
   UScaled("ha", "A", "ha", <<1, 2>>, "ka"),
   UScaled("ta", "A", "ta", <<1, 3>>, "a"),
@@ -306,8 +307,9 @@ DoOp(i) ==
                             THEN cache \cup {[key |-> k, r |-> fresh]} ELSE cache
     /\ UNCHANGED <<types, units>>
 
-\* C04 / C19 on units: equal <=> same type and (with a reference unit) same scale / (without) the same unit
-UnitEq(u, v) == u.typ = v.typ /\ IF TypeByName(u.typ).ref # NoName THEN u.num = v.num ELSE u.sym = v.sym
+\* C04 / C19 on units of a type WITH reference unit: equal <=> same type and same scale.  Without a reference unit
+\* there is no scale: the adapter only demands a consistent relation there (reflexive, symmetric, equal => same hash)
+UnitEq(u, v) == u.typ = v.typ /\ TypeByName(u.typ).ref # NoName /\ u.num = v.num
 
 \* the guards under which an item can be attempted at all (its operands exist)
 CanTry(i) ==
